@@ -4,13 +4,13 @@ package sim
 // each property. Counts are fixed so that a tier explores the same cases for
 // a given VERIF_SEED regardless of machine speed.
 var Plans = map[string][]PlanItem{
-	"C01": {{Scen: "world", Quick: 6000, Thorough: 400000}},
-	"C02": {{Scen: "world", Quick: 4000, Thorough: 250000}},
-	"C03": {{Scen: "world", Quick: 4000, Thorough: 250000}},
-	"C04": {{Scen: "world", Quick: 3000, Thorough: 150000}},
+	"C01": {{Scen: "world", Quick: 6000, Thorough: 400000}, {Scen: "giant", Quick: 2, Thorough: 48}},
+	"C02": {{Scen: "world", Quick: 4000, Thorough: 250000}, {Scen: "giant", Quick: 2, Thorough: 48}},
+	"C03": {{Scen: "world", Quick: 4000, Thorough: 250000}, {Scen: "giant", Quick: 2, Thorough: 32}},
+	"C04": {{Scen: "world", Quick: 3000, Thorough: 150000}, {Scen: "aligned", Quick: 6, Thorough: 64}},
 	"C05": {{Scen: "nav", Quick: 12000, Thorough: 600000}},
 	"C06": {{Scen: "stored", Quick: 5000, Thorough: 300000}},
-	"C07": {{Scen: "docvalues", Quick: 3000, Thorough: 200000}},
+	"C07": {{Scen: "docvalues", Quick: 3000, Thorough: 200000}, {Scen: "giant", Quick: 3, Thorough: 64}},
 	"C08": {{Scen: "dictionary", Quick: 8000, Thorough: 500000}},
 	"C18": {{Scen: "dmt", Quick: 8000, Thorough: 500000}},
 	"C13": {{Scen: "reuse", Quick: 6000, Thorough: 400000}, {Scen: "docvalues", Quick: 1500, Thorough: 100000}},
@@ -21,8 +21,8 @@ var Plans = map[string][]PlanItem{
 	"C09": {{Scen: "concurrent", Quick: 4000, Thorough: 300000}},
 	"C14": {{Scen: "build-history", Quick: 2500, Thorough: 150000}},
 	"C10": {{Scen: "interop", Quick: 2500, Thorough: 150000}, {Scen: "golden", Quick: 400, Thorough: 2000}},
-	"C11": {{Scen: "world", Quick: 3000, Thorough: 150000}, {Scen: "persist-fault", Quick: 48, Thorough: 2000}},
-	"C16": {{Scen: "world", Quick: 4000, Thorough: 250000}},
+	"C11": {{Scen: "world", Quick: 3000, Thorough: 150000}, {Scen: "persist-fault", Quick: 48, Thorough: 2000}, {Scen: "aligned", Quick: 8, Thorough: 96}},
+	"C16": {{Scen: "world", Quick: 4000, Thorough: 250000}, {Scen: "giant", Quick: 4, Thorough: 64}},
 }
 
 // Levels: the verification level claimed per property.
